@@ -16,6 +16,8 @@ Added after the seeding rounds (DESIGN.md 6.6-6.8):
             integration mode (length analysis); the Madgwick gradient is formed only where norm(f) != 0 is a must-fact.
 Added after refactoring round 3 (DESIGN.md 6.9):
  loop normal form  enumerate()/zip() sample loops are analysed in their index form (sa/desugar.py); the representation context follows hoisted and negated tests.
+Added after seeding rounds 5 and 6 and refactoring round 4 (DESIGN.md 6.10-6.12):
+ VALUE-RAISE / MASK-BLEND / SIGN-CANON.rows  no rejection by the values of integrated angles; mask arithmetic over divisions; rows scaled by a sign.
 """
 import ast
 LINT_EXTRA_FILES = ("ahrs/common/orientation.py", "ahrs/utils/core.py")      # acc2q / am2q / ecompass helpers the filters start from; the shared input validators
